@@ -17,12 +17,26 @@
 (* The tracker is modelled in the shape of the code - a map id -> waiter per   *)
 (* prefix, Close deletes by id - so that the way ids are chosen matters:       *)
 (* IdFromMapSize = TRUE is the mutant "id := len(map) + 1".                    *)
-(* Keys of a prefix are abstracted to their number (the n-th key generated).   *)
+(* Keys of a prefix are named by their number (the n-th key generated); their  *)
+(* numeric suffixes are uint64 values kept as 20-digit decimal strings (sfx,    *)
+(* arithmetic of OxiaDb.tla), because GetSequenceUpdates finds "the current     *)
+(* last key" by a reverse scan over a RANGE of suffixes: the scan has to cover  *)
+(* every suffix a sequence can reach, 0 .. 2^64-1 (InitRead).  A sequence is    *)
+(* moved anywhere in that range by its deltas: in the bounded model the first   *)
+(* put of a prefix in BigPrefixes has the delta 2^63-1 (so its second key       *)
+(* crosses 2^63), every other put the delta 1; traces carry arbitrary deltas.   *)
+(* ScanBelowMaxInt64 = TRUE is the mutant "the scan stops below                 *)
+(* prefix-%020d(math.MaxInt64)".                                                *)
 EXTENDS Integers, Sequences, FiniteSets, TLC, Json
 
-CONSTANTS Prefixes, IdFromMapSize, MaxWaiters, MaxPuts, MaxSteps, Export
+CONSTANTS Prefixes, IdFromMapSize, MaxWaiters, MaxPuts, MaxSteps, Export,
+          BigPrefixes,         \* prefixes whose first delta is 2^63-1
+          ScanBelowMaxInt64    \* mutant of the initial read
+
+Db == INSTANCE OxiaDb          \* decimal uint64 arithmetic: Sum21 / Exceeds64 / AddU64 / PadLeft20 / BytesCmp
 
 VARIABLES latest,   \* prefix -> number of the last generated key (0 = none)
+          sfx,      \* prefix -> the suffixes generated so far (20-digit strings), sfx[p][n] = suffix of key n
           wp,       \* handle -> prefix                (handles are 1..Len(wp))
           tid,      \* handle -> tracker id
           open,     \* handle -> not closed
@@ -31,14 +45,23 @@ VARIABLES latest,   \* prefix -> number of the last generated key (0 = none)
           reg,      \* prefix -> [tracker id -> handle]
           idGen,    \* the tracker's id counter
           hist      \* recorded steps (for replay on the real code)
-vars == <<latest, wp, tid, open, buf, seen, reg, idGen, hist>>
+vars == <<latest, sfx, wp, tid, open, buf, seen, reg, idGen, hist>>
 View == <<latest, wp, tid, open, buf, seen, reg, idGen, Len(hist)>>
 
 Handles == 1..Len(wp)
 Registered(w) == \E i \in DOMAIN reg[wp[w]] : reg[wp[w]][i] = w
 EmptyMap == [i \in {} |-> 0]
 
-Init == /\ latest = [p \in Prefixes |-> 0] /\ wp = <<>> /\ tid = <<>> /\ open = <<>> /\ buf = <<>> /\ seen = <<>>
+One20   == Db!PadLeft20(<<49>>)
+MaxI64  == Db!PadLeft20(<<57,50,50,51,51,55,50,48,51,54,56,53,52,55,55,53,56,48,55>>)    \* 2^63-1
+DeltaOf(p) == IF latest[p] = 0 /\ p \in BigPrefixes THEN MaxI64 ELSE One20
+CurSfx(p)  == IF latest[p] = 0 THEN Db!Zero20 ELSE sfx[p][latest[p]]
+(* db.go:GetSequenceUpdates - the number of the highest existing key of the prefix whose suffix lies in the   *)
+(* scanned range (0 = there is none).  Suffixes grow, so with the whole uint64 range scanned this is latest[p]. *)
+InScan(x)   == IF ScanBelowMaxInt64 THEN Db!BytesCmp(x, MaxI64) < 0 ELSE Db!BytesCmp(x, Db!MaxU64) <= 0
+InitRead(p) == LET S == {n \in 1..latest[p] : InScan(sfx[p][n])} IN IF S = {} THEN 0 ELSE CHOOSE n \in S : \A m \in S : m <= n
+
+Init == /\ latest = [p \in Prefixes |-> 0] /\ sfx = [p \in Prefixes |-> <<>>] /\ wp = <<>> /\ tid = <<>> /\ open = <<>> /\ buf = <<>> /\ seen = <<>>
         /\ reg = [p \in Prefixes |-> EmptyMap] /\ idGen = 0 /\ hist = <<>>
 
 Rec(r) == hist' = Append(hist, r)
@@ -50,31 +73,35 @@ Subscribe(p) ==
        /\ idGen' = idGen + 1
        /\ reg' = [reg EXCEPT ![p] = (id :> w) @@ @]          \* im[id] = sw
        /\ wp' = Append(wp, p) /\ tid' = Append(tid, id) /\ open' = Append(open, TRUE)
-       /\ buf' = Append(buf, IF latest[p] > 0 THEN <<latest[p]>> ELSE <<>>)
+       /\ buf' = Append(buf, IF InitRead(p) > 0 THEN <<InitRead(p)>> ELSE <<>>)
        /\ seen' = Append(seen, 0)
-       /\ UNCHANGED latest
-       /\ Rec([a |-> "Sub", p |-> p, w |-> w, k |-> 0, obs |-> <<>>])
+       /\ UNCHANGED <<latest, sfx>>
+       /\ Rec([a |-> "Sub", p |-> p, w |-> w, k |-> 0, obs |-> <<>>, d |-> <<>>, sfx |-> <<>>])
 
-Put(p) ==
+\* a sequence put with the delta d (a 20-digit string, > 0) whose exact result is a uint64 (beyond: OxiaDb!SeqOverflow)
+PutD(p, d) ==
     /\ latest[p] < MaxPuts
+    /\ d # Db!Zero20 /\ ~Db!Exceeds64(Db!Sum21(CurSfx(p), d))
     /\ latest' = [latest EXCEPT ![p] = @ + 1]
+    /\ sfx' = [sfx EXCEPT ![p] = Append(@, Db!AddU64(CurSfx(p), d))]
     /\ buf' = [w \in Handles |-> IF wp[w] = p /\ Registered(w) THEN <<latest[p] + 1>> ELSE buf[w]]
     /\ UNCHANGED <<wp, tid, open, seen, reg, idGen>>
-    /\ Rec([a |-> "Put", p |-> p, w |-> 0, k |-> latest[p] + 1, obs |-> <<>>])
+    /\ Rec([a |-> "Put", p |-> p, w |-> 0, k |-> latest[p] + 1, obs |-> <<>>, d |-> d, sfx |-> Db!AddU64(CurSfx(p), d)])
+Put(p) == PutD(p, DeltaOf(p))
 
 Close(w) ==
     /\ w \in Handles /\ open[w]
     /\ open' = [open EXCEPT ![w] = FALSE]
     /\ reg' = [reg EXCEPT ![wp[w]] = [i \in DOMAIN @ \ {tid[w]} |-> @[i]] @@ EmptyMap]   \* delete(im, id)
-    /\ UNCHANGED <<latest, wp, tid, buf, seen, idGen>>
-    /\ Rec([a |-> "Close", p |-> wp[w], w |-> w, k |-> 0, obs |-> <<>>])
+    /\ UNCHANGED <<latest, sfx, wp, tid, buf, seen, idGen>>
+    /\ Rec([a |-> "Close", p |-> wp[w], w |-> w, k |-> 0, obs |-> <<>>, d |-> <<>>, sfx |-> <<>>])
 
 ObsOf(w) == IF buf[w] # <<>> THEN buf[w][1] ELSE IF open[w] THEN 0 ELSE -1
 Drain ==
     /\ buf' = [w \in Handles |-> <<>>]
     /\ seen' = [w \in Handles |-> IF buf[w] # <<>> /\ open[w] THEN buf[w][1] ELSE seen[w]]
-    /\ UNCHANGED <<latest, wp, tid, open, reg, idGen>>
-    /\ Rec([a |-> "Drain", p |-> "", w |-> 0, k |-> 0, obs |-> [w \in Handles |-> ObsOf(w)]])
+    /\ UNCHANGED <<latest, sfx, wp, tid, open, reg, idGen>>
+    /\ Rec([a |-> "Drain", p |-> "", w |-> 0, k |-> 0, obs |-> [w \in Handles |-> ObsOf(w)], d |-> <<>>, sfx |-> <<>>])
 
 Next == /\ Len(hist) < MaxSteps
         /\ \/ \E p \in Prefixes : Subscribe(p) \/ Put(p)
